@@ -13,10 +13,21 @@ RULE = ("every operator (+ - * // / % divmod, == != < <= > >=, unary - abs + has
         "results at the timedelta range limits (OverflowError); // / % divmod of a Duration / Interval by a PLAIN timedelta (the repaired finding div-by-plain-timedelta: "
         "its former witness 3 days // 5 hours for all four operators, both signs, divisors 1 us .. 2^31 s, exact multiples, zero); prim-* streams compare the translated _divide_and_round / _to_microseconds and the hand-written "
         "float helpers (as_integer_ratio, int/int, divmod(int, float), Duration(seconds=float)) with the implementation directly. "
+        "HISTORIES (fn seq: one case = several operator calls executed in order in ONE process; an operand may be the very object an earlier call returned; with "
+        "share=1 equal literals are one object): history-twin-divisor (the divisor of // / % divmod drawn from the objects that compare == and hash alike but are distinguishable: "
+        "plain timedelta, Duration, Duration in mixed units, Duration whose years/months make up part of the length, AbsoluteDuration; fixed alias pairs "
+        "Duration(years=1, days=1) == timedelta(days=366) in both orders + random lengths), history-twin-operands (both operands from such pools, int k vs float k as factor, any operator incl. "
+        "comparisons / hash / neg), history-chain (results fed back as operands: remainder // x, quotient used as factor, -result, timedelta results on the left), "
+        "history-after-raise (a call that raised ZeroDivisionError / TypeError / OverflowError first), history-same-objects (the operation repeated on the same objects with every "
+        "public accessor read in between: op touch). Every step is judged on its own operands by the stdlib oracle and the whole history is run in the Gallina model "
+        "(run_history); steps with an AbsoluteDuration operand are executed but neither judged (outside the statement) nor modelled. "
+        "prim-timedelta_to_microseconds-history: the divisor conversion on 2-4 twins in a row against divisor_us. "
         "A case is non-trivial when an operand is non-zero.")
 EXHAUSTIVE = {"quick": False, "thorough": False}
 VM_SUBSET = 60
 TRUSTED = [
+    "a process history is modelled as a straight-line program over immutable values (Model/DurationOps.run_history): that CPython evaluates the calls of a history in order and that "
+    "an object returned by one call and passed to the next is the same object is trusted; everything else about histories is checked by the history streams on every run",
     "Spec/TdFloat.v (SpecFloat binary64 + CPython's float/timedelta primitives) as validated by C09's tdfloat-* streams; Model/Duration.v (Duration.__new__) as validated by C09",
     "Python's binary operator protocol for a heap subclass of timedelta (subclass-first reflected call, NotImplemented -> TypeError, inherited reflected slots are timedelta's own "
     "arithmetic on the native values) is hand-modelled in Model/DurationOps.arith_op and validated by the type-table stream on every run",
@@ -37,10 +48,11 @@ TD_MAX = 999999999
 EXN = {1: "ValueError", 2: "TypeError", 3: "OverflowError", 6: "AttributeError", 8: "ZeroDivisionError", 14: "Exception"}
 BINOPS = {"add": 1, "sub": 2, "mul": 4, "floordiv": 5, "truediv": 6, "mod": 7, "divmod": 8, "eq": 10, "ne": 11, "lt": 12, "le": 13, "gt": 14, "ge": 15}
 UNOPS = {"neg": 3, "abs": 9, "pos": 16, "hash": 17, "bool": 18}
+HIST_UNOPS = dict(UNOPS, touch=19)       # touch (only inside a history): read every public accessor of the object, then hand the SAME object on
 ARITH = ("add", "sub", "mul", "floordiv", "truediv", "mod", "divmod")
 DIVOPS = ("floordiv", "truediv", "mod", "divmod")
 CMP = ("eq", "ne", "lt", "le", "gt", "ge")
-KIND = {"int": 1, "float": 2, "dur": 3, "td": 4, "ivl": 5}
+KIND = {"int": 1, "float": 2, "dur": 3, "td": 4, "ivl": 5, "ref": 6, "adur": 7}
 
 
 # ----------------------------------------------------------------------------- float <-> integers (same wire format as C09)
@@ -81,6 +93,7 @@ def fdecode(c):
 
 # ----------------------------------------------------------------------------- values
 # ["int", k] | ["float", tag, m, e] | ["dur", days, seconds, us, ms, minutes, hours, weeks, years, months] | ["td", N] | ["ivl", delta]
+# only inside a history (fn "seq"): ["ref", i] the result object of step i of the same history | ["adur", N] an AbsoluteDuration(microseconds=N)
 def v_int(k):
     return ["int", int(k)]
 
@@ -354,7 +367,241 @@ def cases(tier, seed):
         s = n / US if rnd.random() < 0.7 else rand_float_operand(rnd) * rnd.choice([1, 1000, 10 ** 6])
         out.append({"stream": "prim-duration_of_float_seconds", "fn": "fsec", "args": fcode(s) + [rnd.choice([0, 0, 1, -3]), rnd.choice([0, 0, 5, -7])], "backends": ["py"]})
         out.append({"stream": "prim-to_microseconds", "fn": "tous", "args": v_dur(n, years=rnd.choice([0, 0, 2, -1]), months=rnd.choice([0, 0, 3]), rnd=rnd)[1:], "backends": ["py"]})
+    # 11. histories: several operator calls in one process (own random stream: the streams above stay as they were)
+    history_cases(random.Random(seed * 7919 + 1010), scale, out)
     return out
+
+
+# ----------------------------------------------------------------------------- histories (fn "seq")
+# A history is a straight-line program executed in ONE process, in order: args = [share, [step, ...]], step = [op, operand(, operand)].
+# An operand is a literal value, ["adur", N], or ["ref", i] = the very object step i returned.  With share = 1 equal literals are one object.
+# Every step whose operands are inside the statement must, whatever ran before it, agree with the native operator on ITS OWN operands.
+def v_adur(n):
+    return ["adur", int(n)]
+
+
+def v_ref(i):
+    return ["ref", int(i)]
+
+
+YM_PAIRS = [(1, 0), (0, 1), (1, 1), (-1, 0), (0, -1), (2, -3), (0, 2), (3, 2), (-2, 5), (10, 0), (0, 12)]
+ROUND_UNITS = [3600 * US, DAY_US, 7 * DAY_US, 366 * DAY_US, 61 * DAY_US + 12 * 3600 * US, 90 * 60 * US, 30 * DAY_US, 365 * DAY_US, 395 * DAY_US, US, 1]
+
+
+def twin(rnd, n, kind):
+    """One of the objects that compare == (and hash alike) to timedelta(microseconds=n) but are distinguishable from it:
+    td plain timedelta | dur Duration(microseconds=n) | durx the same written in mixed units | ym a Duration whose years / months
+    make up part of the native length (its _to_microseconds() is NOT n) | ivl an Interval | adur an AbsoluteDuration (|n| inside)."""
+    if kind == "td":
+        return v_td(n)
+    if kind == "dur":
+        return v_dur(n)
+    if kind == "durx":
+        return v_dur(n, rnd=rnd)
+    if kind == "ym":
+        y, mo = rnd.choice(YM_PAIRS) if rnd.random() < 0.7 else (rnd.randint(-3, 3), rnd.randint(-6, 6))
+        if 365 * y + 30 * mo == 0:
+            y += 1
+        return v_dur(n - (365 * y + 30 * mo) * DAY_US, years=y, months=mo, rnd=rnd if rnd.random() < 0.3 else None)
+    if kind == "ivl":
+        return v_ivl(n)
+    if kind == "adur":
+        return v_adur(n)
+    raise ValueError(kind)
+
+
+def scalar_twin(rnd, k):
+    """k as an int or as the equal float (k == float(k), same hash)"""
+    return v_int(k) if rnd.random() < 0.5 else v_float(float(k))
+
+
+def _pend(v):
+    return v[0] in ("dur", "ivl", "adur")
+
+
+def step_ok(st):
+    """the combinations the model covers (the same exclusions as the single-operator streams); refs are resolved only at run time"""
+    op, vals = st[0], st[1:]
+    if len(vals) == 2:
+        l, r = vals
+        if r[0] == "ivl" and l[0] in ("dur", "ivl", "adur", "ref"):
+            return False
+        if op in CMP and "ivl" in (l[0], r[0]):
+            return False
+    return True
+
+
+def res_kind(st, kinds):
+    """kind of object a step returns when it does not raise: dur | td | int | float | None (tuple, bool, hash: not usable as an operand)"""
+    op, vals = st[0], st[1:]
+    ks = [kinds[v[1]] if v[0] == "ref" else ("dur" if v[0] in ("dur", "ivl") else v[0]) for v in vals]
+    if None in ks or "adur" in ks:
+        return None
+    if len(ks) == 1:
+        return {"neg": "dur", "touch": "dur", "abs": "td", "pos": "td"}.get(op) if ks[0] == "dur" else None
+    l, r = ks
+    if op in CMP or op == "divmod":
+        return None
+    if l == "dur":
+        if op in ("add", "sub", "mod"):
+            return "dur" if r in ("dur", "td") else None
+        if op == "mul":
+            return "dur" if r in ("int", "float") else None
+        if op == "floordiv":
+            return "dur" if r == "int" else "int" if r in ("dur", "td") else None
+        if op == "truediv":
+            return "dur" if r in ("int", "float") else "float" if r in ("dur", "td") else None
+    if l == "td" and r == "dur":
+        return {"add": "dur", "sub": "td", "floordiv": "int", "truediv": "float", "mod": "td"}.get(op)
+    if l in ("int", "float") and r == "dur" and op == "mul":
+        return "dur"
+    return None
+
+
+def history_cases(rnd, scale, out):
+    HB = B31 // 64           # literal operands of histories stay far below the float band (only a chain of products can climb into it)
+
+    def seq(stream, steps, share=0):
+        steps = [st for st in steps if st is not None and step_ok(st)]
+        if len(steps) >= 2:
+            out.append({"stream": stream, "fn": "seq", "args": [int(share), steps]})
+
+    def length(rnd):
+        r = rnd.random()
+        if r < 0.35:
+            return rnd.choice([1, -1]) * rnd.choice(ROUND_UNITS) * rnd.choice([1, 1, 1, 2, 3])
+        if r < 0.7:
+            return rnd.choice([1, -1]) * rnd.randrange(1, 10 ** rnd.randrange(1, 14))
+        return rand_n(rnd, hi=HB) or 1
+
+    # A. the divisor (right operand of // / % divmod) taken from the twins of ONE length, in random order: whatever an earlier division
+    #    learnt about an equal-but-different object must not leak into a later one
+    #    fixed part: the alias pairs Duration(years=1, days=1) == timedelta(days=366), Duration(months=2, days=1, hours=12) == 61.5 days,
+    #    AbsoluteDuration(hours=-1) == timedelta(hours=-1): the distinguishable object first, then the plain one (and the other way round)
+    x0 = v_dur(1000 * DAY_US + 5 * US + 7)
+    for op in DIVOPS:
+        for alias, n in ((v_dur(DAY_US, years=1), 366 * DAY_US), (v_dur(DAY_US + 12 * 3600 * US, months=2), 61 * DAY_US + 12 * 3600 * US),
+                         (v_adur(-3600 * US), -3600 * US)):
+            for plain in (v_td(n), v_dur(n)):
+                seq("history-twin-divisor", [[op, x0, alias], [op, x0, plain]])
+                seq("history-twin-divisor", [[op, x0, plain], [op, v_ivl(-731 * DAY_US), alias], [rnd.choice(DIVOPS), x0, plain]])
+    for _ in range(400 * scale):
+        n = length(rnd)
+        ks = [rnd.choice(["td", "dur", "durx", "ym", "ym", "adur"]) for _ in range(rnd.randint(2, 4))]
+        if len(set(ks)) == 1:
+            ks[-1] = "td" if ks[0] != "td" else "ym"
+        same_left = rand_tdlike(rnd, rand_n(rnd, hi=HB), kinds=PEND) if rnd.random() < 0.4 else None
+        same_op = rnd.choice(DIVOPS) if rnd.random() < 0.5 else None
+        seq("history-twin-divisor", [[same_op or rnd.choice(DIVOPS), same_left or rand_tdlike(rnd, rand_n(rnd, hi=HB), kinds=PEND),
+                                      twin(rnd, n if k != "adur" else -abs(n), k)] for k in ks], share=rnd.random() < 0.3)
+    # B. both operands from twin pools (left: a length, right: a length or a scalar), any operator, operators repeated
+    for _ in range(400 * scale):
+        n1, n2, k = length(rnd), length(rnd), rnd.choice([1, -1]) * rnd.choice([1, 2, 3, 4, 7, 10, 60, 1000])
+        ops = [rnd.choice(ARITH + CMP + ("neg", "abs", "pos", "hash", "bool", "touch")) for _ in range(2)]
+        steps = []
+        for _ in range(rnd.randint(2, 5)):
+            op = rnd.choice(ops) if rnd.random() < 0.7 else rnd.choice(ARITH)
+            l = twin(rnd, n1, rnd.choice(["dur", "durx", "ym", "ivl", "td", "adur"]))
+            if op in HIST_UNOPS:
+                steps.append([op, l if l[0] in ("dur", "adur") else twin(rnd, n1, "ym")])
+                continue
+            if rnd.random() < 0.35 and op in ("mul", "floordiv", "truediv"):
+                r = scalar_twin(rnd, k)
+            else:
+                r = twin(rnd, n2, rnd.choice(["dur", "durx", "ym", "td", "adur"]))
+            if not (_pend(l) or _pend(r)):
+                r = twin(rnd, n2, "dur")
+            if rnd.random() < 0.25 and _pend(r):
+                l, r = r, l            # the twin pool on the other side (timedelta / number on the left)
+            steps.append([op, l, r])
+        seq("history-twin-operands", steps, share=rnd.random() < 0.3)
+    # C. chains: the object an operator returned is the operand of the next one (a result must be a full-blown Duration: its private
+    #    fields, not only its native length, feed the next operator)
+    for _ in range(400 * scale):
+        d0 = v_dur(rand_n(rnd, hi=HB), rnd=rnd) if rnd.random() < 0.8 else v_ivl(rand_n(rnd, hi=HB))
+        first = rnd.choice([
+            ["add", d0, rand_tdlike(rnd, rand_n(rnd, hi=HB), kinds=("dur", "td"))], ["sub", d0, rand_tdlike(rnd, rand_n(rnd, hi=HB), kinds=("dur", "td"))],
+            ["mul", d0, scalar_twin(rnd, rnd.randint(-5, 5))], ["mul", d0, v_float(rnd.choice([0.5, 1.5, -2.5, 0.1, 1 / 3]))],
+            ["floordiv", d0, v_int(rnd.choice([1, -1]) * rnd.randint(1, 1000))], ["truediv", d0, scalar_twin(rnd, rnd.choice([2, 3, -7, 10, 1000]))],
+            ["mod", d0, rand_tdlike(rnd, length(rnd), kinds=("dur", "td"))], ["neg", d0] if d0[0] == "dur" else ["mod", d0, v_td(length(rnd))],
+            ["add", v_td(rand_n(rnd, hi=HB)), d0], ["mul", v_int(rnd.randint(-5, 5)), d0],
+            ["floordiv", d0, rand_tdlike(rnd, length(rnd), kinds=("dur", "td"))], ["truediv", d0, rand_tdlike(rnd, length(rnd), kinds=("dur", "td"))],
+            ["sub", v_td(rand_n(rnd, hi=HB)), d0],
+        ])
+        steps, kinds = [first], [res_kind(first, [])]
+        for _ in range(rnd.randint(1, 4)):
+            usable = [i for i, k in enumerate(kinds) if k is not None]
+            if not usable:
+                break
+            j = usable[-1] if rnd.random() < 0.7 else rnd.choice(usable)
+            k = kinds[j]
+            lit = lambda: rand_tdlike(rnd, length(rnd), kinds=("dur", "dur", "td"))      # noqa: E731
+            if k == "dur":
+                st = rnd.choice([
+                    [rnd.choice(DIVOPS), v_ref(j), lit()], [rnd.choice(DIVOPS), v_ref(j), lit()], [rnd.choice(("add", "sub")), v_ref(j), lit()],
+                    ["mul", v_ref(j), scalar_twin(rnd, rnd.randint(-4, 4))], [rnd.choice(("floordiv", "truediv")), v_ref(j), v_int(rnd.choice([1, -1]) * rnd.randint(1, 99))],
+                    ["truediv", v_ref(j), v_float(rnd.choice([2.0, 0.5, -1.5, 10.0, 0.3]))], [rnd.choice(("neg", "touch", "abs", "pos", "hash", "bool")), v_ref(j)],
+                    [rnd.choice(DIVOPS), lit() if rnd.random() < 0.5 else d0, v_ref(j)], [rnd.choice(CMP), v_ref(j), lit()],
+                    [rnd.choice(ARITH), v_td(length(rnd)), v_ref(j)], [rnd.choice(DIVOPS + ("add", "sub")), v_ref(j), v_ref(rnd.choice(usable))],
+                    [rnd.choice(CMP), v_ref(j), v_ref(rnd.choice(usable))],
+                ])
+            elif k == "td":
+                st = rnd.choice([[rnd.choice(DIVOPS + ("add", "sub")), d0, v_ref(j)], [rnd.choice(DIVOPS + ("add", "sub")), v_ref(j), v_dur(length(rnd), rnd=rnd)],
+                                 [rnd.choice(CMP), v_dur(length(rnd)), v_ref(j)]])
+            else:          # a number: a quotient fed back as a factor / divisor
+                st = rnd.choice([["mul", d0, v_ref(j)], ["mul", v_ref(j), v_dur(length(rnd), rnd=rnd)], [rnd.choice(("floordiv", "truediv")), d0, v_ref(j)],
+                                 ["mul", v_dur(rnd.randrange(1, 10 ** 9)), v_ref(j)]])
+            if not step_ok(st):
+                continue
+            steps.append(st)
+            kinds.append(res_kind(st, kinds))
+        seq("history-chain", steps, share=rnd.random() < 0.5)
+    # D. a call that RAISED comes first (zero divisor, wrong operand type, result / operand out of range): it leaves nothing behind
+    for _ in range(150 * scale):
+        n = length(rnd)
+        x = rand_tdlike(rnd, rand_n(rnd, hi=HB), kinds=PEND)
+        bad = rnd.choice([
+            [rnd.choice(DIVOPS), x, rnd.choice([v_td(0), v_dur(0), v_dur(0, years=1, months=0, rnd=None), v_dur(-365 * DAY_US, years=1)])],
+            [rnd.choice(("floordiv", "truediv")), x, rnd.choice([v_int(0), v_float(0.0)])],
+            [rnd.choice(("add", "sub", "mod", "divmod")), x, scalar_twin(rnd, rnd.randint(1, 9))],
+            ["mul", x, rnd.choice([v_int(10 ** 30), v_float(1e300), v_float(math.nan), twin(rnd, n, "td")])],
+            [rnd.choice(ARITH), x, v_td(2 * TD_MAX * DAY_US)],
+            [rnd.choice(DIVOPS), twin(rnd, n, "td"), v_dur(0)],
+        ])
+        steps = [bad]
+        for _ in range(rnd.randint(1, 3)):
+            op = bad[0] if rnd.random() < 0.6 else rnd.choice(ARITH)
+            l = bad[1] if rnd.random() < 0.6 else rand_tdlike(rnd, rand_n(rnd, hi=HB), kinds=PEND)
+            if op in DIVOPS or op in ("add", "sub"):
+                r = twin(rnd, n, rnd.choice(["td", "dur", "durx", "ym"]))
+            else:
+                r = scalar_twin(rnd, rnd.randint(1, 9))
+            steps.append([op, l, r])
+            if rnd.random() < 0.3:
+                steps.append(bad)
+        seq("history-after-raise", steps, share=rnd.random() < 0.5)
+    # the year-bearing region of finding float-total-resolution (mul_int_with_years_refuted): native length 0.92 s, year-free part 5e7 s
+    out.append({"stream": "band-mul-int-years", "fn": "binop", "args": ["mul", v_dur(50112000924991, years=-2, months=5), v_int(-1000)]})
+    out.append({"stream": "band-mul-int-years", "fn": "binop", "args": ["mul", v_int(1000), v_dur(-315360000000000 + 7, years=10)]})
+    # F. the divisor conversion itself on the twins of one length, one after the other in one process (correspondence with divisor_us)
+    for _ in range(300 * scale):
+        n = length(rnd)
+        out.append({"stream": "prim-timedelta_to_microseconds-history", "fn": "tdus", "backends": ["py"],
+                    "args": [twin(rnd, n, rnd.choice(["td", "dur", "durx", "ym", "ivl"])) for _ in range(rnd.randint(2, 4))]})
+    # E. the same objects again: the operation repeated, the accessors of both operands read in between (share = 1: one object per literal)
+    for _ in range(150 * scale):
+        x = v_dur(rand_n(rnd, hi=HB), rnd=rnd) if rnd.random() < 0.7 else twin(rnd, length(rnd), "ym")
+        y = twin(rnd, length(rnd), rnd.choice(["dur", "durx", "td", "ym"])) if rnd.random() < 0.7 else scalar_twin(rnd, rnd.choice([2, 3, -4, 10]))
+        op = rnd.choice(DIVOPS + ("add", "sub")) if tdlike(y) else rnd.choice(("mul", "floordiv", "truediv"))
+        steps = [[op, x, y] if rnd.random() < 0.6 else ["touch", x], ["touch", x]]
+        if y[0] == "dur":
+            steps.append(["touch", y])
+        steps.append([op, x, y])
+        if rnd.random() < 0.5:
+            steps.append([rnd.choice(("neg", "hash", "abs", "bool")), x])
+            steps.append([op if rnd.random() < 0.5 else rnd.choice(ARITH), x, y])
+        seq("history-same-objects", steps, share=1)
+
 
 
 def search_cases(seed):
@@ -411,6 +658,56 @@ def impl_run(cases):
            "divmod": divmod, "eq": operator.eq, "ne": operator.ne, "lt": operator.lt, "le": operator.le, "gt": operator.gt, "ge": operator.ge,
            "neg": operator.neg, "abs": abs, "pos": operator.pos, "bool": bool}
     base = datetime(4000, 1, 1)
+    from pendulum.duration import AbsoluteDuration
+    ACCESSORS = ("years", "months", "weeks", "days", "remaining_days", "hours", "minutes", "seconds", "remaining_seconds", "microseconds", "invert")
+    METHODS = ("total_seconds", "total_minutes", "total_hours", "total_days", "total_weeks", "in_weeks", "in_days", "in_hours", "in_minutes", "in_seconds",
+               "as_timedelta", "__repr__", "__hash__", "__bool__")
+    BAD = object()
+
+    def run_seq(share, steps):
+        """the steps of one history, in order, in this process; returns the canonical result of every step"""
+        objs, outs, memo = [], [], {}
+
+        def get(v):
+            if v[0] == "ref":
+                j = v[1]
+                if not (isinstance(j, int) and 0 <= j < len(objs)) or objs[j] is BAD:
+                    raise Exception("the step referred to did not return a Duration / timedelta / int / float")
+                return objs[j]
+            if v[0] == "adur":
+                return AbsoluteDuration(microseconds=v[1])
+            if share:
+                key = repr(v)
+                if key not in memo:
+                    memo[key] = build(v)
+                return memo[key]
+            return build(v)
+        for st in steps:
+            try:
+                op = st[0]
+                xs = [get(v) for v in st[1:]]
+                if not any(isinstance(x, Duration) for x in xs):
+                    res, canon = BAD, [0, 15]                    # no pendulum object involved: not an operation of this library
+                elif op == "touch":
+                    x = xs[0]
+                    for nm in ACCESSORS:
+                        getattr(x, nm)
+                    for nm in METHODS:
+                        getattr(x, nm)()
+                    res = x
+                    canon = _canon(x, Duration)
+                elif op == "hash":
+                    t = _triple(xs[0])
+                    res, canon = BAD, ([0, 8] + t if hash(xs[0]) == hash(timedelta(*t)) else [0, 8, "hash differs from timedelta's"])
+                else:
+                    res = ops[op](*xs)
+                    canon = _canon(res, Duration)
+                outs.append(canon)
+                objs.append(res if type(res) in (Duration, int, float, timedelta) else BAD)
+            except Exception as e:  # noqa
+                outs.append(_exn(e))
+                objs.append(BAD)
+        return outs
 
     def build(v):
         k = v[0]
@@ -433,6 +730,18 @@ def impl_run(cases):
             if fn == "binop":
                 l, r = build(a[1]), build(a[2])
                 out.append(_canon(ops[a[0]](l, r), Duration))
+            elif fn == "seq":
+                out.append([0, run_seq(a[0], a[1])])
+            elif fn == "tdus":
+                import sys as _sys
+                _dm = _sys.modules["pendulum.duration"]          # (the package attribute `pendulum.duration` is the factory function)
+                res = []
+                for v in a:
+                    try:
+                        res.append([0, _dm._timedelta_to_microseconds(build(v))])
+                    except Exception as e:  # noqa
+                        res.append(_exn(e))
+                out.append([0, res])
             elif fn == "unop":
                 v = build(a[1])
                 if a[0] == "hash":
@@ -468,12 +777,38 @@ def model_calls(c, backend):
         return [("binop", [BINOPS[a[0]]] + enc(a[1]) + enc(a[2]))]
     if fn == "unop":
         return [("unop", [UNOPS[a[0]]] + enc(a[1]))]
+    if fn == "seq":
+        flat = []
+        for st in a[1]:
+            if len(st) == 3:
+                flat += [1, BINOPS[st[0]]] + enc(st[1]) + enc(st[2])
+            else:
+                flat += [2, HIST_UNOPS[st[0]]] + enc(st[1]) + [0] * 10
+        return [("history", flat)]
+    if fn == "tdus":
+        return [("divisor_us", enc(v)) for v in a]
     name = {"dar": "divide_and_round", "tous": "to_microseconds", "ratio": "as_integer_ratio", "itd": "int_truediv", "darf": "divide_and_round_float",
             "fsec": "dur_fsec"}.get(fn)
     return [(name, list(a))] if name else None
 
 
+def _exn_name(code):
+    return EXN.get(code, "code%d" % code)
+
+
 def model_result(c, backend, outs):
+    if c["fn"] == "seq":
+        o, items, i = outs[0], [], 0
+        if o == [9]:
+            return [9]
+        while i < len(o):
+            n = o[i]
+            it = list(o[i + 1:i + 1 + n])
+            items.append([1, _exn_name(it[1])] if it[0] == 1 else it)
+            i += 1 + n
+        return [0, items]
+    if c["fn"] == "tdus":
+        return [0, [[1, _exn_name(o[1])] if o[0] == 1 else list(o) for o in outs]]
     o = outs[0]
     if o[0] == 1:
         return [1, EXN.get(o[1], "code%d" % o[1])]
@@ -481,6 +816,9 @@ def model_result(c, backend, outs):
 
 
 def same(c, m, r):
+    if c["fn"] == "seq" and m[0] == 0 and r[0] == 0 and len(m[1]) == len(r[1]):
+        # steps with an AbsoluteDuration operand are executed (they belong to the history) but not modelled
+        return all(x == y for st, x, y in zip(c["args"][1], m[1], r[1]) if not any(v[0] == "adur" for v in st[1:]))
     return m == r
 
 
@@ -551,6 +889,9 @@ def _compare(c, r):
         return None
     st, exp = _expected(fn, op, natives)
     shown = f"{op}({', '.join(map(repr, natives))})"
+    ym_unclaimed = (any(has_ym(v) for v in vals) and fn == "binop" and op in ARITH and not (op == "mul" and "int" in (vals[0][0], vals[1][0])))
+    if ym_unclaimed and "ZeroDivisionError" in (r[1] if r[0] == 1 else None, exp if st == "raise" else None):
+        return None        # years / months: the divisor Duration sees (_to_microseconds() leaves them out) is not the native length, so neither is its zero
     if r[0] == 1:
         if st == "raise" and exp == r[1]:
             return None
@@ -609,7 +950,70 @@ def _compare(c, r):
     return None
 
 
+# ----------------------------------------------------------------------------- histories: every step against the native operator on its own operands
+def _pseudo(r):
+    """The operand that an earlier step's RESULT r (as observed) stands for; None when it is not usable as an operand."""
+    if not r or r[0] != 0 or len(r) < 2 or not isinstance(r[1], int):
+        return None
+    k = r[1]
+    if k == 1:
+        y, mo = r[8], r[9]
+        return ["dur", 0, 0, (r[2] * 86400 + r[3]) * US + r[4] - (365 * y + 30 * mo) * DAY_US, 0, 0, 0, 0, y, mo]
+    if k == 2:
+        return ["int", r[2]]
+    if k == 3:
+        return ["float"] + list(r[2:5])
+    if k == 5:
+        return ["td", (r[2] * 86400 + r[3]) * US + r[4]]
+    return None
+
+
+def _seq_failures(c, r):
+    """[(step index, why, deviation, the step as a single-operator case, its result)] for the steps of a history that violate the property.
+    A step is judged on the operands it actually received (a ["ref", i] operand is the object step i returned, as observed), so a wrong
+    step is reported where it happens and a later step only if it is wrong on its own."""
+    if r[0] != 0 or not isinstance(r[1], list) or len(r[1]) != len(c["args"][1]):
+        return [(None, f"the history did not run: {r}", None, None, None)]
+    steps, res = c["args"][1], r[1]
+    fails = []
+    for i, (st, ri) in enumerate(zip(steps, res)):
+        op, vals, judged = st[0], [], True
+        for v in st[1:]:
+            if v[0] == "ref":
+                v = _pseudo(res[v[1]]) if 0 <= v[1] < i else None
+            if v is None or v[0] == "adur":
+                judged = False          # AbsoluteDuration operands are outside the statement; a dangling ref is the harness's own Exception
+                break
+            vals.append(v)
+        if not judged or not step_ok([op] + vals) or not any(v[0] in ("dur", "ivl") for v in vals):
+            continue
+        if op == "touch":
+            v = vals[0]
+            want = [_us(_native(v)), v[8], v[9]]
+            got = [_value_of(ri)[1], ri[8], ri[9]] if ri[0] == 0 and ri[1] == 1 else ri
+            w = None if got == want else (f"reading the accessors of the object changed it: (native us, years, months) {want} -> {got}", None)
+        else:
+            w = _compare({"fn": "binop" if len(vals) == 2 else "unop", "args": [op] + vals}, ri)
+        if w is not None:
+            fails.append((i, w[0], w[1], {"fn": "binop" if len(vals) == 2 else "unop", "args": [op] + vals}, ri))
+    return fails
+
+
+def _seq_oracle(c, r):
+    fails = _seq_failures(c, r)
+    if not fails:
+        return None
+    i, why, _dev, sub, _ri = fails[0]
+    if i is None:
+        return why
+    return (f"step {i} of a history of {len(c['args'][1])} calls in one process, {sub['args'][0]}{tuple(sub['args'][1:])}: {why}"
+            + (f" -- after {i} earlier call(s) in the same process; the same call alone is judged by the single-operator streams" if i else "")
+            + (f"; {len(fails)} steps fail" if len(fails) > 1 else ""))
+
+
 def oracle(c, backend, r):
+    if c["fn"] == "seq":
+        return _seq_oracle(c, r)
     if c["fn"] not in ("binop", "unop"):
         return _prim_oracle(c, r)
     w = _compare(c, r)
@@ -645,6 +1049,10 @@ def _prim_oracle(c, r):
 
 
 def known(c, backend, r):
+    if c["fn"] == "seq":
+        # a history is excused only when EVERY failing step, taken as a single-operator case, is the same listed finding
+        ks = {known(sub, backend, ri) if sub is not None else None for _i, _w, _d, sub, ri in _seq_failures(c, r)}
+        return ks.pop() if len(ks) == 1 else None
     if c["fn"] not in ("binop", "unop"):
         return None
     a = c["args"]
@@ -667,6 +1075,10 @@ def known(c, backend, r):
         k = [v[1] for v in vals if v[0] == "int"]
         if k:
             mags.append(mags[0] * abs(k[0]))
+            for v in vals:
+                if has_ym(v):      # the float that is scaled is _total, the YEAR-FREE part: it can be large while the native length is small
+                    t = abs(dur_native(list(v[1:8]) + [0, 0]))
+                    mags += [t, t * abs(k[0])]
     if c["fn"] == "binop" and op in ("add", "sub"):
         mags.append(abs(mags[0] + mags[1]) if len(mags) == 2 else 0)
         mags.append(abs(mags[0] - mags[1]) if len(mags) >= 2 else 0)
@@ -682,9 +1094,13 @@ def known(c, backend, r):
 LEVEL_TEXT = ("Machine-checked Coq theorems about an executable model of Duration's operators assembled from translated integer parts (_divide_and_round, _to_microseconds, "
               "every integer constructor argument, the isinstance return-type table) and hand-modelled SpecFloat parts, equal to the implementation on every run (both backends): "
               "_divide_and_round is round-half-even of the exact quotient for all integers; negation, floor/true division, modulo, divmod (by an int / float, by a Duration and by a "
-              "plain timedelta alike: the operand kind is proved irrelevant), float scaling agree with exact timedelta arithmetic; + - and int scaling agree given explicit float premises (validated each run) below 2^31 s; return-type table; comparisons and hash are timedelta's.")
+              "plain timedelta alike: the operand kind is proved irrelevant, at every position of every process history), float scaling agree with exact timedelta arithmetic; + - and int scaling agree given explicit float premises (validated each run) below 2^31 s; return-type table; comparisons and hash are timedelta's.")
 DESIGN_REF = "DESIGN.md section 4 C10"
-LEVEL_NOTE = ("Two float premises (exactness of Duration(seconds=<float>) for sums/products below 2^31 s) and C09's float_split premise are explicit hypotheses of the *_partial theorems, "
+LEVEL_NOTE = ("Process histories: the model run_history is stateless by construction (the state of a process is the list of objects returned so far) and is compared with one "
+              "interpreter executing the same calls in order; result_independent_of_history / earlier_call_leaves_no_trace / history_divisor_kind_irrelevant / touch_hands_on_the_object / "
+              "chain_mod_then_div_partial are proved about it, and divisor_memo_by_timedelta_eq_refuted shows on a counter-model why a memo keyed by timedelta's == / hash is not transparent "
+              "(so single-call streams cannot see it). Not in the model (oracle / execution only): AbsoluteDuration operands, object identity (share=1), what the accessors cache. "
+              "Two float premises (exactness of Duration(seconds=<float>) for sums/products below 2^31 s) and C09's float_split premise are explicit hypotheses of the *_partial theorems, "
               "not axioms. The remaining defect of the current code is proved as *_refuted witnesses: + - and int * lose a microsecond from 2^31 s. Division by a plain timedelta "
               "(formerly AttributeError, finding div-by-plain-timedelta) is repaired: div_mod_by_timedelta_spec / div_by_timedelta_agrees hold at full strength and a regression is a VIOLATION.")
 TECHNIQUE = "translator (py2gallina + per-branch constructor-argument extraction) + Coq proof (lia/nia over floor division, vm_compute witnesses) + differential correspondence + stdlib timedelta/Fraction oracle"
